@@ -20,6 +20,17 @@ def _short(c):
     if " as std::cmp::Ord>::cmp" in c: return "Ord<" + c.split(" as std::cmp::Ord")[0].lstrip("<").split("::")[-1] + ">::cmp"
     return c.split("::")[-1] if "::" in c else c
 
+CAPMAP = {}      # closure path -> {captured variable name: normalised text of the value it captured in its parent}
+
+def note_captures(clo_expr, parent_fn):
+    """remember what a then_with closure captured: a local holding `self.pre_number.unwrap_or(0)` is that expression, not its name"""
+    if not (isinstance(clo_expr, tuple) and clo_expr[0] == "closure"): return
+    m = CAPMAP.setdefault(clo_expr[1], {})
+    for name, val in clo_expr[2]:
+        if isinstance(val, tuple) and val != ("param", 1) and val != ("param", 2):
+            t = nrm(val, parent_fn)
+            if t not in ("self", "other"): m[str(name).lstrip("*&")] = t
+
 def nrm(e, fn):
     """normalised text of a symbolic expression: self/other naming, references and derefs dropped"""
     if not isinstance(e, tuple): return str(e)
@@ -29,7 +40,8 @@ def nrm(e, fn):
         return "arg%d" % e[1]
     if k == "field":
         if e[1] == ("param", 1) and fn.kind == "closure":
-            return str(e[2]).replace("(*", "").replace(")", "").lstrip("*&")
+            nm_ = str(e[2]).replace("(*", "").replace(")", "").lstrip("*&")
+            return CAPMAP.get(fn.path, {}).get(nm_, nm_)
         return nrm(e[1], fn) + "." + str(e[2])
     if k == "as": return nrm(e[1], fn) + "#" + e[2]
     if k == "const": return repr(e[1])
@@ -85,6 +97,13 @@ class Model:
             self.rows.append((conds, sp.ret(), sp))
     def cond(self, d, rel, vals, b):
         fn = self.fn
+        # `!x` tested: the test on x with the other outcome; a constant condition has been used for feasibility already
+        flipped = False
+        while isinstance(d, tuple) and d[0] == "un" and d[1] == "Not":
+            d = d[2]; flipped = not flipped
+        if flipped and set(vals) <= {0, 1}:
+            rel = "ne" if rel == "eq" else "eq"
+        if d[0] == "const": return None
         if d[0] == "discr":
             desc = mir.describe_discr(fn, b)
             st = fn.blocks[b]["s"][-1] if fn.blocks[b]["s"] else None
@@ -95,7 +114,7 @@ class Model:
             if inner[0] == "agg" and str(inner[1]).startswith("std::cmp::Ordering::"): return None     # constant: feasibility already applied
             if inner[0] == "call" and is_cmp_callee(inner[1]) and not (inner[2] and inner[2][0][0] == "agg"):
                 return ("atom", atom_key(inner, fn), rel, names, inner)
-            if ordering_valued(inner):
+            if ordering_valued(inner) or (inner[0] == "call" and self.F.fn(str(inner[1])) is not None and self.F.fn(str(inner[1])).d.get("ret") == "std::cmp::Ordering"):
                 return ("ordval", "ordval@%d" % b, rel, names, inner)
             return ("discr", nrm(inner, fn), rel, names, tuple(sorted(vmap.values())))
         # `if ord != Ordering::Equal { return ord }` and friends
@@ -109,11 +128,32 @@ class Model:
                 return None
             k = ordconst(c2); e = a
             if k is None: k = ordconst(a); e = c2
-            if k is not None and ordering_valued(e):
+            local_ord = isinstance(e, tuple) and e[0] == "call" and self.F.fn(str(e[1])) is not None and self.F.fn(str(e[1])).d.get("ret") == "std::cmp::Ordering"
+            if k is not None and (ordering_valued(e) or local_ord):
                 truth = not ((rel == "eq" and 0 in vals) or (rel == "ne" and 0 not in vals))
                 is_eq = d[1].endswith("::eq")
                 holds_equal = truth if is_eq else not truth       # the tested value equals k
                 return ("ordval", "ordval@%d" % b, "eq" if holds_equal else "ne", (k,), e)
+        if d[0] == "call" and isinstance(d[1], str) and set(vals) <= {0, 1}:
+            truth = not ((rel == "eq" and 0 in vals) or (rel == "ne" and 0 not in vals))
+            c = d[1]
+            # presence tests on an Option input: the same atom as matching on it
+            if (c.endswith("Option::<T>::is_some") or c.endswith("Option::<T>::is_none")) and d[2]:
+                present = truth if c.endswith("is_some") else not truth
+                return ("discr", nrm(d[2][0], fn), "eq", ("Some",) if present else ("None",), ("None", "Some"))
+            # `a == b` / `a != b` on two inputs: the comparison atom tested against Equal
+            if (c.endswith("::eq") or c.endswith("::ne")) and "PartialEq" in c and len(d[2]) == 2:
+                full = fn.blocks[d[3]]["t"][1].get("full") or "" if len(d) > 3 and isinstance(d[3], int) else ""
+                ty = full.split(" as ", 1)[0].lstrip("<").split("::")[-1] if " as " in full else "?"
+                key = "Ord<%s>::cmp(%s,%s)" % (ty, nrm(d[2][0], fn), nrm(d[2][1], fn))
+                equal = truth if c.endswith("::eq") else not truth
+                return ("eqatom", key, "eq" if equal else "ne", ("Equal",), d)
+            # any other boolean question put to the operands is an input the reference comparator does not have
+            return ("boolatom", "%s(%s)" % (_short(c), ",".join(nrm(a, fn) for a in d[2])), "eq", ("true",) if truth else ("false",), ("false", "true"))
+        if d[0] == "bin" and set(vals) <= {0, 1}:
+            # a numeric test on the operands (a slice pattern's length test, an index comparison): a question the reference does not ask
+            truth = not ((rel == "eq" and 0 in vals) or (rel == "ne" and 0 not in vals))
+            return ("boolatom", "%s(%s,%s)" % (d[1], nrm(d[2], fn), nrm(d[3], fn)), "eq", ("true",) if truth else ("false",), ("false", "true"))
         raise Unrecognised("condition %s in %s" % (mir.show(d), fn.path))
 
 def _tuple_types(callee, n):
@@ -153,8 +193,9 @@ class Comparator:
             m = Model(self.F, fn); self.models[fn.path] = m
             for conds, ret, sp in m.rows:
                 for c in conds:
-                    if c[0] == "discr": self.discrs[c[1]] = c[4]
+                    if c[0] in ("discr", "boolatom"): self.discrs[c[1]] = c[4]
                     elif c[0] == "atom": self.atoms[c[1]] = str(c[4][1])
+                    elif c[0] == "eqatom": self.atoms[c[1]] = "eq"
         return self.models[fn.path]
     def flatten(self, m):
         """list of stages: (model, expr) pairs; a then_with chain in a single-row function becomes several stages"""
@@ -166,6 +207,7 @@ class Comparator:
             left = self.flat_expr(m, e[2][0])
             clo = e[2][1]
             if clo[0] != "closure": raise Unrecognised("then_with with a non-closure")
+            note_captures(clo, m.fn)
             c = self.F.fn(clo[1])
             return left + self.flatten(self.model(c))
         if e[0] == "call" and str(e[1]).endswith("Ordering::then"):
@@ -179,7 +221,9 @@ class Comparator:
             if c.endswith("Ordering::then_with") or c.endswith("Ordering::then"):
                 v = self.value(m, e[2][0], asg)
                 if v != "Equal": return v
-                if e[2][1][0] == "closure": return self.eval_model(self.model(self.F.fn(e[2][1][1])), asg)
+                if e[2][1][0] == "closure":
+                    note_captures(e[2][1], m.fn)
+                    return self.eval_model(self.model(self.F.fn(e[2][1][1])), asg)
                 return self.value(m, e[2][1], asg)
             if c.endswith("Ordering::reverse"):
                 return {"Less": "Greater", "Greater": "Less", "Equal": "Equal"}[self.value(m, e[2][0], asg)]
